@@ -109,6 +109,8 @@ def make_project(seed, root):
             "warn": False, "quiet": True}
     # the same [[entity]] references on the front page, in the summary and on static pages of every depth
     targets = extra_targets + [u.name for f in files for u in f.units if getattr(u, "kind", None) in ("module", "program")][:2]
+    if files:
+        targets.append(files[0].name + ".f90")  # a source file: a link only if the file has a page (incl_src)
     refs = (" See " + " and ".join(f"[[{t}]]" for t in targets) + ".") if targets and seed % 3 != 2 else ""
     if rng.random() < 0.5:
         opts["page_dir"] = make_pages(root, rng, rng.randint(0, 2), refs)
